@@ -30,7 +30,7 @@ MUTATIONS = ["drop-mandatory", "cardinality", "unknown-short", "unknown-long", "
 
 
 def cases(tier):
-    return 7000 if tier == "quick" else 200000
+    return 14000 if tier == "quick" else 200000
 
 
 def clone_uses(uses):
